@@ -461,4 +461,151 @@ theorem run_init_facts (k : Nat) (b : Bool) (z : α) (hk : 1 ≤ k) (ins : List 
   · rw [acc_run]; simp [gInit]
   · rw [del_run k b z hk ins _ _ (inv_init k b z)]; simp [gInit]
 
+/-! ### Progress (liveness in clock ticks) -/
+
+section
+variable {k : Nat} {b : Bool} (z : α) {s : AFState α} {g : Ghost α}
+
+/-- Under the invariant `readable` is exact: it is low only if the read side has consumed everything it
+    knows about (uses injectivity of the Gray code). -/
+theorem not_ireadable_eq (h : AFInv k b s g) (hr : ireadable s = false) : g.C = g.Pr2 := by
+  unfold ireadable at hr
+  simp at hr
+  rw [h.cq, h.cbin, h.pr2] at hr
+  have hm := gray_injective _ _ hr
+  by_contra hne
+  have hlt : g.C < g.Pr2 := by have := h.o3; omega
+  have hlt2 : g.Pr2 < g.C + 2 ^ (k + 1) := by
+    have := h.o1; have := h.o2; have := h.o4; have := h.o5; have := h.o6
+    have : 2 ^ (k + 1) = 2 * 2 ^ k := by rw [Nat.pow_succ]; omega
+    have := Nat.two_pow_pos k
+    omega
+  exact mod_ne_of_lt_of_lt hlt hlt2 hm
+
+/-- Monotonicity and progress of the read-side view of the produce pointer in one instant. -/
+theorem step_pr_progress (_hk : 1 ≤ k) (h : AFInv k b s g) (i : AFIn α) :
+    let g' := gStep k b z s g i
+    g.Pr1 ≤ g'.Pr1 ∧ g.Pr2 ≤ g'.Pr2 ∧ g.acc.length ≤ g'.acc.length ∧
+      (i.tr = true → g.acc.length ≤ g'.Pr1 ∧ g'.Pr2 = g.Pr1) := by
+  have ⟨p4, p5⟩ := (⟨h.o4, h.o5⟩ : g.Pr2 ≤ g.Pr1 ∧ g.Pr1 ≤ g.acc.length)
+  cases htr : i.tr <;> simp only [gStep, htr, if_true, List.length_append] <;>
+    (repeat' split) <;> simp <;> omega
+
+/-- Two read-clock edges after a token has been accepted, the read side knows about it — whatever the write
+    clock does meanwhile and however the synchroniser flops resolve. -/
+theorem pr2_progress (hk : 1 ≤ k) (P0 : Nat) (ins : List (AFIn α)) :
+    ∀ (s : AFState α) (g : Ghost α), AFInv k b s g → P0 ≤ g.acc.length →
+      (P0 ≤ g.Pr2 → P0 ≤ (gRun k b z s g ins).Pr2) ∧
+      (P0 ≤ g.Pr1 → 1 ≤ readTicks ins → P0 ≤ (gRun k b z s g ins).Pr2) ∧
+      (2 ≤ readTicks ins → P0 ≤ (gRun k b z s g ins).Pr2) := by
+  induction ins with
+  | nil => intro s g _ _; simp [gRun, readTicks]
+  | cons i is ih =>
+    intro s g h hP
+    obtain ⟨m1, m2, m3, m4⟩ := step_pr_progress z hk h i
+    obtain ⟨ih1, ih2, ih3⟩ := ih _ _ (inv_step z hk h i) (le_trans hP m3)
+    simp only [gRun, readTicks]
+    refine ⟨fun h0 => ih1 (le_trans h0 m2), fun h0 ht => ?_, fun ht => ?_⟩
+    · cases htr : i.tr
+      · simp [htr] at ht
+        exact ih2 (le_trans h0 m1) ht
+      · exact ih1 (by rw [(m4 htr).2]; exact h0)
+    · cases htr : i.tr
+      · simp [htr] at ht
+        exact ih3 ht
+      · simp [htr] at ht
+        exact ih2 (le_trans hP (m4 htr).1) (by omega)
+
+end
+
+section
+variable {k : Nat} (z : α) {s : AFState α} {g : Ghost α}
+
+/-- "Token number `P0` is on offer or already handed over" for the buffered variant. -/
+def BGood (P0 : Nat) (s : AFState α) (g : Ghost α) : Prop := s.bval = true ∨ P0 ≤ dcount s g
+
+theorem bgood_idle (_h : AFInv k true s g) (i : AFIn α) (htr : i.tr = false) (P0 : Nat)
+    (hg : BGood P0 s g) : BGood P0 (afStep k true z s i) (gStep k true z s g i) := by
+  have e1 : (afStep k true z s i).bval = s.bval := by simp [afStep, htr]
+  have e2 : (gStep k true z s g i).C = g.C := by simp [gStep, htr]
+  unfold BGood dcount at *
+  rw [e1, e2]; exact hg
+
+theorem bgood_tick (h : AFInv k true s g) (i : AFIn α) (htr : i.tr = true) (P0 : Nat)
+    (hP : P0 ≤ g.Pr2) : BGood P0 (afStep k true z s i) (gStep k true z s g i) := by
+  unfold BGood
+  cases hl : ire true s i.ready
+  · left
+    simp [ire] at hl
+    simp [afStep, htr, ire, hl]
+  · have e1 : (afStep k true z s i).bval = ireadable s := by simp [afStep, htr, hl]
+    cases hr : ireadable s
+    · right
+      have hC := not_ireadable_eq h hr
+      have e2 : (gStep k true z s g i).C = g.C := by simp [gStep, rce, hr]
+      unfold dcount
+      rw [e1, hr, e2]; simp; omega
+    · left; rw [e1]; exact hr
+
+theorem buf_progress (hk : 1 ≤ k) (P0 : Nat) (ins : List (AFIn α)) :
+    ∀ (s : AFState α) (g : Ghost α), AFInv k true s g → P0 ≤ g.acc.length →
+      (BGood P0 s g → P0 ≤ g.Pr2 → BGood P0 (runFrom k true z s ins) (gRun k true z s g ins)) ∧
+      (P0 ≤ g.Pr2 → 1 ≤ readTicks ins → BGood P0 (runFrom k true z s ins) (gRun k true z s g ins)) ∧
+      (P0 ≤ g.Pr1 → 2 ≤ readTicks ins → BGood P0 (runFrom k true z s ins) (gRun k true z s g ins)) ∧
+      (3 ≤ readTicks ins → BGood P0 (runFrom k true z s ins) (gRun k true z s g ins)) := by
+  induction ins with
+  | nil => intro s g _ _; simp [gRun, runFrom, readTicks]; exact fun h _ => h
+  | cons i is ih =>
+    intro s g h hP
+    obtain ⟨m1, m2, m3, m4⟩ := step_pr_progress z hk h i
+    obtain ⟨ihA, ihB, ihC, ihD⟩ := ih _ _ (inv_step z hk h i) (le_trans hP m3)
+    simp only [gRun, runFrom, readTicks]
+    cases htr : i.tr
+    · simp only [Bool.false_eq_true, if_false, Nat.zero_add]
+      exact ⟨fun hg h2 => ihA (bgood_idle z h i htr P0 hg) (le_trans h2 m2),
+             fun h2 ht => ihB (le_trans h2 m2) ht,
+             fun h1 ht => ihC (le_trans h1 m1) ht,
+             fun ht => ihD ht⟩
+    · simp only [if_true]
+      obtain ⟨m5, m6⟩ := m4 htr
+      exact ⟨fun _ h2 => ihA (bgood_tick z h i htr P0 h2) (le_trans h2 m2),
+             fun h2 _ => ihA (bgood_tick z h i htr P0 h2) (le_trans h2 m2),
+             fun h1 ht => ihB (by rw [m6]; exact h1) (by omega),
+             fun ht => ihC (le_trans hP m5) (by omega)⟩
+
+end
+
+/-! ### Schedules in two parts -/
+
+theorem runFrom_append (k : Nat) (b : Bool) (z : α) (x y : List (AFIn α)) :
+    ∀ s, runFrom k b z s (x ++ y) = runFrom k b z (runFrom k b z s x) y := by
+  induction x with
+  | nil => intro s; rfl
+  | cons i is ih => intro s; simp [runFrom, ih]
+
+theorem gRun_append (k : Nat) (b : Bool) (z : α) (x y : List (AFIn α)) :
+    ∀ s g, gRun k b z s g (x ++ y) = gRun k b z (runFrom k b z s x) (gRun k b z s g x) y := by
+  induction x with
+  | nil => intro s g; rfl
+  | cons i is ih => intro s g; simp [runFrom, gRun, ih]
+
+/-- Facts about a schedule in two parts `x ++ y` from reset. -/
+theorem run_split_facts (k : Nat) (b : Bool) (z : α) (hk : 1 ≤ k) (x y : List (AFIn α)) :
+    ∃ g1 g2 : Ghost α,
+      AFInv k b (runFrom k b z (afInit k z) x) g1 ∧ g1.acc = accepted k b z (afInit k z) x ∧
+      g2 = gRun k b z (runFrom k b z (afInit k z) x) g1 y ∧
+      AFInv k b (runFrom k b z (afInit k z) (x ++ y)) g2 ∧
+      g2.acc.take (dcount (runFrom k b z (afInit k z) (x ++ y)) g2) = delivered k b z (afInit k z) (x ++ y) := by
+  refine ⟨gRun k b z (afInit k z) gInit x, gRun k b z (afInit k z) gInit (x ++ y),
+    inv_run k b z hk x _ _ (inv_init k b z), ?_, gRun_append k b z x y _ _,
+    inv_run k b z hk (x ++ y) _ _ (inv_init k b z), ?_⟩
+  · rw [acc_run]; simp [gInit]
+  · rw [del_run k b z hk (x ++ y) _ _ (inv_init k b z)]; simp [gInit]
+
+theorem dcount_le_acc {k : Nat} {b : Bool} {s : AFState α} {g : Ghost α} (h : AFInv k b s g) :
+    dcount s g ≤ g.acc.length := by
+  have := h.o3; have := h.o4; have := h.o5
+  unfold dcount; omega
+
+
 end Litex.Cdc
